@@ -51,6 +51,7 @@ type Unit struct {
 	closureN int
 	closures map[string]*ClosureV
 	specErrs []string
+	scanEntry *State
 	nowN int
 	measure0 *Term
 	retVals []Value // merged results of the top-level function (for replay)
